@@ -158,6 +158,11 @@ theorem Parses.s_reslice {ks : List Kind} {inner : G} {ts rest : List Tok} {b0 :
   obtain ⟨f, h⟩ := h
   cases e <;> exact ⟨f + 1, by simp only [runP, hs, h, endVal]⟩
 
+/-- `take_until` used as a skipper (annotations) -/
+theorem Parses.s_skipTo {ks : List Kind} {ts rest body : List Tok} {e : Option Tok}
+    (hs : takeUntil ks ts = (rest, body, e)) : Parses (.skipTo ks) ts rest (endVal e) := by
+  cases e <;> exact ⟨1, by simp only [runP, hs, endVal]⟩
+
 /-! ### errors with their position (for `recover .silentAt` on an empty list: `( )`) -/
 
 theorem FailsAt.tok {k : Kind} {t : Tok} {r : List Tok} (h : t.kind ≠ k) (hc : t.kind ≠ Kind.Comment) :
